@@ -185,6 +185,27 @@ def run_curve(sx, kind):
     return f"curve-{kind}"
 
 
+def run_curve_fresh(sx):
+    """ground twin only (the real minimisers run): a clamp created on an analytic curve - S-shaped, several local minima of
+    the distance, parameter range not starting at 0 - without an initial parameter reports the position it was created at"""
+    def s_curve(t):
+        return np.array([t, t * t * t - 3 * t, 0.2 * t])
+    sx.reach("clamp")
+    bad = []
+    for lo, hi in ((-2.0, 2.0), (1.0, 3.0), (-3.0, -0.5)):
+        curve = cb.AnalyticCurve(s_curve, (lo, hi))
+        for k in range(1, 12):
+            t0 = lo + (hi - lo) * k / 12
+            pos = s_curve(t0)
+            clamp = cb.CurveClamp(pos, curve)
+            d = float(np.linalg.norm(np.asarray(clamp.position, dtype=float) - pos))
+            if d > 1e-4:
+                bad.append(((lo, hi), round(t0, 3), round(d, 4), [round(float(x), 4) for x in clamp.params]))
+    sx.prove(not bad, "CurveClamp created on an analytic curve without an initial parameter reports its creation position",
+             "C17:curve-analytic:fresh-position", info={"failures": bad[:4], "count": len(bad)})
+    return "curve-analytic"
+
+
 def run_surface(sx):
     def surf(params):
         u, v = params[0], params[1]
@@ -277,6 +298,7 @@ def jobs(tier, seed):
         {"name": "radial:axis=(1.5,3,3)", "fn": "run_radial", "params": {"axis": [1.5, 3, 3]}},
         {"name": "curve:line", "fn": "run_curve", "params": {"kind": "line"}},
         {"name": "curve:discrete", "fn": "run_curve", "params": {"kind": "discrete"}},
+        {"name": "curve:analytic, fresh clamp|ground twin only", "fn": "run_curve_fresh", "symbolic": False},
         {"name": "surface+free", "fn": "run_surface"},
         {"name": "translation", "fn": "run_translation"},
         {"name": "symmetry", "fn": "run_symmetry"},
